@@ -166,7 +166,14 @@ func (e *Eval) call(fr *frame, x *ssa.Call, st State) AV {
 		if len(callee.Blocks) > 0 {
 			nLoops := len(e.Loops)
 			e.sites = append(e.sites, x)
+			// a call made from the body of a loop that is being summarised: what the callee
+			// cannot compute on values that depend on the iteration is that loop's imprecision
+			saveOuter := e.outerLoop
+			if fr.loop != nil {
+				e.outerLoop = fr.loop
+			}
 			res, out := e.evalFunc(callee, args, bindings, st, fr.depth+1, false)
+			e.outerLoop = saveOuter
 			e.sites = e.sites[:len(e.sites)-1]
 			if len(e.Loops) > nLoops {
 				// the callee ran a loop to completion: what follows the call is "after the loop"
